@@ -757,6 +757,9 @@ func (fv *FuncVerifier) callUnknown(st *State, e *ast.CallExpr, recv *Val, what 
 		for _, g := range fv.eng.contracts.GhostOrder {
 			kind := fv.eng.contracts.GhostVars[g]
 			st.ghost[g] = Val{T: fv.fresh("gv_"+g, ghostSort(kind)), Sort: ghostSort(kind)}
+		if kind == "nat" {
+			fv.assumeGlobal("(>= " + st.ghost[g].T + " 0)")
+		}
 		}
 	}
 	var out []Val
@@ -1019,6 +1022,9 @@ func (fv *FuncVerifier) callContract(st *State, e *ast.CallExpr, fn *types.Func,
 			continue
 		}
 		st.ghost[g] = Val{T: fv.fresh("gv_"+g, ghostSort(kind)), Sort: ghostSort(kind)}
+		if kind == "nat" {
+			fv.assumeGlobal("(>= " + st.ghost[g].T + " 0)")
+		}
 	}
 	// results
 	extra := map[string]Val{}
